@@ -515,9 +515,7 @@ def string_obligations(ctx, I, SOcls):
     bad2 = None
     n = 0
     for i in range(3):
-        for row in rows:
-            if not any(row):
-                continue
+        for row in rows:                      # including the all-zero row (degenerate but encodable: its component is the bare translation, or empty)
             for k in range(12):
                 R = [[1, 0, 0], [0, 1, 0], [0, 0, 1]]
                 kk = [0, 0, 0]
